@@ -19,18 +19,18 @@ U32MAX = 4294967295
 def pools(tier):
     V = A
     full = [V.vnull(), V.vbool(True), V.vbool(False), V.vint(0), V.vint(1), V.vint(65536), V.vint(U32MAX), V.vint(U32MAX - 1),
-            V.vstr(""), V.vstr("a"), V.vstr("{}"), V.vstr("{"), V.vstr("x{}y}}"), V.vstr("{{{}}}"), V.vstr("a.b"), V.vstr("é中"), V.vstr("b"),
+            V.vstr(""), V.vstr("a"), V.vstr("{}"), V.vstr("{"), V.vstr("x{}y}}"), V.vstr("{{{}}}"), V.vstr("a.b"), V.vstr("é中"), V.vstr("b"), V.vstr("éé{}中{{x}}{}"),
             V.vlist(), V.vlist(V.vint(1), V.vstr("a")), V.vlist(V.vstr("a"), V.vstr("b")), V.vlist(V.vlist(V.vint(1)), V.vlist()),
             V.vlist(V.vstr(""), V.vstr("usr"), V.vstr("")), V.vlist(V.vstr(""), V.vstr("")), V.vstr("/"), V.vstr("^$"),
             {"t": "set", "e": [V.vint(1), V.vint(2)]}, {"t": "set", "e": []}, {"t": "set", "e": [V.vstr("a"), V.vstr("b")]},
             {"t": "syn", "n": 1}, {"t": "syn", "n": 3}, {"t": "syn", "n": 4}, V.vgn(0), V.vgn(1),
             V.vlist(V.vgn(0), {"t": "syn", "n": 1})]
-    core = [V.vnull(), V.vbool(True), V.vint(1), V.vint(U32MAX), V.vstr("a"), V.vstr("{}{}"), V.vstr("a{}b"), V.vstr("/"), V.vstr(""), V.vstr("^$"), V.vstr("$"),
+    core = [V.vnull(), V.vbool(True), V.vint(1), V.vint(U32MAX), V.vstr("a"), V.vstr("{}{}"), V.vstr("a{}b"), V.vstr("/"), V.vstr(""), V.vstr("^$"), V.vstr("$"), V.vstr("é{}中{}"),
             V.vlist(V.vstr("a"), V.vstr("b")), V.vlist(), {"t": "syn", "n": 3}, V.vgn(0)]
     core4 = [V.vbool(False), V.vint(2), V.vint(U32MAX), V.vstr("{}-{}-{}"), V.vstr("x"), V.vlist(V.vint(7))]
     if tier == "thorough":
         return {"full": full, "core": full, "core4": core, "src": 3, "maxlen": 4}
-    return {"full": full, "core": core[:12] + core[13:], "core4": core4, "src": 3, "maxlen": 3}
+    return {"full": full, "core": core[:13] + core[14:], "core4": core4, "src": 3, "maxlen": 3}
 
 
 def canon(v):
